@@ -10,7 +10,7 @@ The oracle evaluates the sentence of the property on the implementation alone: a
 fixed-count evolution of the same length, until_fixed_point ends at the first repeat."""
 import numpy as np
 from harness.driver import call_impl, cz, cnat, cbool, czlist, cgrid, chist, clist, cres
-from harness.twins import make_rule, coq_rule_spec, PredLt, PredScript, PredLogged, dress, dress_pred, RULE_DRESSINGS, PRED_DRESSINGS, unmasked2
+from harness.twins import make_rule, coq_rule_spec, PredLt, PredScript, PredLogged, dress, dress_pred, RULE_DRESSINGS, PRED_DRESSINGS, unmasked2, Reentrant, invoke
 
 ID = 'C06'
 COQ_IMPORTS = ('From CPL Require Import Model.Base Model.Rules Model.Engine Model.Evolve1D Model.Evolve2D Corr.C06.\n'
@@ -208,6 +208,13 @@ def generate(rng, tier):
         yield c
     for c in dtype_cases(rng, tier):
         yield c
+    # round 6: very wide memoized automata (oracle only), call forms, nested evolutions
+    for c in large_cases(rng, tier):
+        yield c
+    for c in callform_cases(rng, tier):
+        yield c
+    for c in reentrant_cases(rng, tier):
+        yield c
     # random larger ones
     n_rand = 200 if tier == 'quick' else 3000
     for _ in range(n_rand):
@@ -299,6 +306,64 @@ def cast_cases(rng, tier):
             continue
         made += 1
         yield c
+
+
+def _flip_rule(n, c, t):
+    """cheap, t-dependent, NumPy scalars only: the centre cell, negated from step 3 on"""
+    centre = n[len(n) // 2]
+    return centre if t < 3 else -centre
+
+
+def _run_large(cpl, c):
+    """callable t < 4 against fixed 4 on a very wide automaton (every neighbourhood distinct), memoized, with a rule
+    that depends on t: the two arrays must be equal (implementation only)"""
+    rs = np.random.RandomState(c['seed'])
+    h = rs.uniform(1.0, 2.0, size=(c['H'], c['N'])) if c['dtype'] == 'float64' else \
+        rs.randint(1, 2 ** 40, size=(c['H'], c['N'])).astype(c['dtype'])
+    consulted = []
+
+    def pred(history_arg, count_arg):
+        consulted.append([len(history_arg), int(count_arg)])
+        return count_arg <= LARGE_STEPS
+    dyn = call_impl(lambda: cpl.evolve(h.copy(), timesteps=pred, apply_rule=_flip_rule, r=1, memoize=c['memo']), timeout=120)
+    fix = call_impl(lambda: cpl.evolve(h.copy(), timesteps=LARGE_STEPS + 1, apply_rule=_flip_rule, r=1, memoize=c['memo']),
+                    timeout=120)
+    o = {'consulted': consulted, 'dyn_ok': dyn[0] == 'ok', 'fix_ok': fix[0] == 'ok'}
+    if dyn[0] == 'ok' and fix[0] == 'ok':
+        a, b = np.asarray(dyn[1]), np.asarray(fix[1])
+        o['same_shape'] = bool(a.shape == b.shape and a.dtype == b.dtype)
+        o['differing_rows'] = [int(i) for i in range(min(len(a), len(b))) if not np.array_equal(a[i], b[i])]
+        o['prefix_ok'] = bool(np.array_equal(a[:c['H']], h))
+    return ['ok', o]
+
+
+def large_cases(rng, tier):
+    """bucket large/...: ORACLE ONLY (Coq constructor CSkip: 70 000-cell rows are not shipped to Coq).  More than 2^16
+    distinct neighbourhoods in one call.  NB a cap on the memo table above 70 000 entries would escape this bucket."""
+    for dtype in ('float64', 'int64'):
+        for memo in (True, 'recursive'):
+            yield {'kind': 'large/%s/%s' % (dtype, memo), 'large': True, 'dim': 1, 'r': 1, 'nb': '-', 'dtype': dtype,
+                   'memo': memo, 'N': 70000, 'H': rng.randint(1, 2), 'seed': rng.randrange(1000), 'hist': [], 'rule': {'fam': 'flip'},
+                   'pred': {'kind': 'lt', 'k': LARGE_STEPS + 1}}
+
+
+def callform_cases(rng, tier):
+    """bucket callform/...: the same evolve / evolve2d call with the first npos arguments positional"""
+    for dim, nargs in ((1, 5), (2, 6)):
+        for npos in range(0, nargs + 1):
+            for j in range(2 if tier == 'quick' else 8):
+                c = _spread_case(rng, 'callform/%dd/npos%d' % (dim, npos), (0 if dim == 1 else 3) + 2 * j, npos=npos)
+                if c is not None and c['dim'] == dim:
+                    yield c
+
+
+def reentrant_cases(rng, tier):
+    """bucket reentrant/...: the predicate (or the rule) runs a nested library evolution on the same geometry"""
+    for who in ('pred', 'rule'):
+        for j in range(10 if tier == 'quick' else 40):
+            c = _spread_case(rng, 'reentrant/' + who, j, reentrant=who)
+            if c is not None:
+                yield c
 
 
 def dtype_cases(rng, tier):
@@ -594,6 +659,29 @@ def ints(x):
     return int(x)
 
 
+class NestedPred:
+    """runs a complete library evolution of its own (same geometry, memoized) before answering"""
+    def __init__(self, inner, nested):
+        self.inner, self.log, self.nested = inner, inner.log, nested
+
+    def __call__(self, history_arg, count_arg):
+        self.nested()
+        b = self.inner(history_arg, count_arg)
+        self.nested()
+        return b
+
+
+def nested_call(cpl, c):
+    """a thunk: an evolution on an automaton of the same shape and dtype, another rule, memoize=True / 'recursive'"""
+    shape = np.asarray(c['hist']).shape[1:]
+    start = (np.arange(int(np.prod(shape))).reshape((1,) + shape) % 3).astype(build_ca(c).dtype)
+    other = make_rule({'fam': 'lin', 'ws': [1] * (3 if c['dim'] == 1 else 9), 'm': 3}, c['dim'])
+    memo = 'recursive' if c.get('memo') == 'recursive' else True
+    if c['dim'] == 1:
+        return lambda: cpl.evolve(start.copy(), timesteps=3, apply_rule=other, r=1, memoize=memo)
+    return lambda: cpl.evolve2d(start.copy(), timesteps=3, apply_rule=other, r=1, neighbourhood='Moore', memoize=memo)
+
+
 def make_pred(cpl, pred, pmode=None):
     if pred['kind'] == 'lt':
         p = PredLt(pred['k'])
@@ -604,7 +692,16 @@ def make_pred(cpl, pred, pmode=None):
     return {'scribble': ScribblePred, 'retain': RetainPred}.get(pmode, lambda x: x)(p)
 
 
+LARGE_STEPS = 3
+
+
 def call_evolve(cpl, c, ca, timesteps, rule):
+    if c.get('npos') is not None:      # the same call written with the first npos arguments positional, the rest by keyword
+        if c['dim'] == 1:
+            return invoke(cpl.evolve, ['cellular_automaton', 'timesteps', 'apply_rule', 'r', 'memoize'],
+                          [ca, timesteps, rule, c['r'], c['memo']], c['npos'])
+        return invoke(cpl.evolve2d, ['cellular_automaton', 'timesteps', 'apply_rule', 'r', 'neighbourhood', 'memoize'],
+                      [ca, timesteps, rule, c['r'], c['nb'], c['memo']], c['npos'])
     if c['dim'] == 1:
         return cpl.evolve(ca, timesteps=timesteps, apply_rule=rule, r=c['r'], memoize=c['memo'])
     return cpl.evolve2d(ca, timesteps=timesteps, apply_rule=rule, r=c['r'], neighbourhood=c['nb'], memoize=c['memo'])
@@ -614,6 +711,8 @@ def run_impl(c):
     import cellpylib as cpl
     if c.get('finding') == 'cast-path':
         return _run_outofrange(cpl, c)
+    if c.get('large'):
+        return _run_large(cpl, c)
     ca = build_ca(c)
     if c.get('direct'):
         res = call_impl(lambda: call_evolve(cpl, c, ca, cpl.until_fixed_point(), build_rule(c)))
@@ -623,7 +722,12 @@ def run_impl(c):
         return ['ok', {'out': conv(c, out), 'shape': [int(x) for x in out.shape], 'dtype': str(out.dtype),
                        'after': conv(c, ca), 'fresh': bool(not np.shares_memory(out, ca))}]
     pred = make_pred(cpl, c['pred'], c.get('pmode'))
-    res = call_impl(lambda: call_evolve(cpl, c, ca, dress_pred(pred, c.get('pdress')), build_rule(c)))
+    if c.get('reentrant') == 'pred':
+        pred = NestedPred(pred, nested_call(cpl, c))
+    rule_obj = build_rule(c)
+    if c.get('reentrant') == 'rule':
+        rule_obj = Reentrant(rule_obj, nested_call(cpl, c))
+    res = call_impl(lambda: call_evolve(cpl, c, ca, dress_pred(pred, c.get('pdress')), rule_obj))
     if res[0] != 'ok':
         return list(res)
     out = np.asarray(res[1])
@@ -657,7 +761,7 @@ def _wellformed(c, o):
 
 
 def to_coq(c, obs):
-    if c.get('finding') == 'cast-path':
+    if c.get('finding') == 'cast-path' or c.get('large'):
         return 'CSkip'          # nothing compared in Coq: the model has one cast, the code has two
     one = c['dim'] == 1
     carr = cgrid if one else chist
@@ -684,7 +788,7 @@ def to_coq(c, obs):
 
 
 def nontrivial(c, obs):
-    if c.get('finding'):
+    if c.get('finding') or c.get('large'):
         return False
     if c.get('direct'):
         return obs[0] == 'ok'
@@ -693,6 +797,18 @@ def nontrivial(c, obs):
 
 # ---------------------------------------------------------------- the property's own oracle
 def oracle(c, obs):
+    if c.get('large'):
+        o = obs[1]
+        if not (o['dyn_ok'] and o['fix_ok']):
+            return 'a call raised (callable ok: %s, fixed ok: %s)' % (o['dyn_ok'], o['fix_ok'])
+        if o['consulted'] != [[k, k] for k in range(1, LARGE_STEPS + 2)]:
+            return 'the predicate was consulted with %s' % o['consulted'][:6]
+        if not o['same_shape'] or not o['prefix_ok']:
+            return 'shape / dtype / prefix of the callable run are wrong'
+        if o['differing_rows']:
+            return ('the evolution gated by a callable differs from the fixed-count evolution of the same length in rows %s'
+                    % o['differing_rows'])
+        return None
     if c.get('finding') == 'cast-path':
         o = obs[1]
         if o['callable'] != o['fixed_run']:
